@@ -105,7 +105,8 @@ def bf_cases(tier):
             fam = "bitfield-next-to-member"
         if emb not in ("ptr",):
             fam += "-" + emb
-        cases.append(Case("bf", cid, "%s|%s %s" % (fam, TN[t], wbucket(w)), (t, w, pre, post, emb)))
+        kind = "_Bool" if t == 0 else ("unsigned" if UNS[t] else "signed")
+        cases.append(Case("bf", cid, "%s|%s %s" % (fam, kind, wbucket(w)), (t, w, pre, post, emb)))
 
     post0 = ("bf", ULONG, 5)
     # A1: every (type,width) x every preceding width 0..63 (unsigned long pre so that all 64 offsets exist)
